@@ -1,104 +1,100 @@
-#!/usr/bin/env python
-"""
-C19 demo 4: an event with a keyword argument called `cls` (or `_name`) cannot
-be sent to a peer: the peer drops the packet silently, the event is never
-executed and the sender's waiting handler never gets an answer.
+"""C19 demo 4: auto_remote_event binds only the LAST channel listed for an event name.
 
-load_event() rebuilds the event with Event.create(name, *args, **kwargs);
-create is `def create(cls, _name, *args, **kwargs)`, so the two keyword names
-collide with its own parameters -> TypeError, which Protocol swallows.
+Node.add(..., auto_remote_event={'inc': ['a', 'b']}) is meant to forward every
+`inc` event fired on channel 'a' or on channel 'b' to the peer.  The loop creates
+one forwarding handler per channel, but self.addHandler() stands outside the inner
+loop, so only the handler of the last channel is registered: an `inc` fired on
+channel 'a' is never transmitted - it is executed zero times on the peer, and the
+local caller gets no result.
+
+(Second defect of the same feature, visible for channel 'b': Node.__on_remote
+overwrites remote_event.channels - here the channels of the LIVE local event -
+with the channels of the `remote` event ('node'), so inc_done/inc_success of the
+local event go to channel 'node' and a handler that waits for it with
+self.call(inc(n), 'b') is never resumed although the peer executed the event.)
 """
+import socket
 import sys
 import time
 
-from circuits import Component, Event, Manager, handler
-from circuits.node import Node, remote
-from circuits.node.utils import dump_event, load_event
+from circuits import Component, Event
+from circuits.node import Node
 
 
-class hello(Event):
-    """the event that is executed remotely"""
+def freeport():
+    s = socket.socket()
+    s.bind(('127.0.0.1', 0))
+    p = s.getsockname()[1]
+    s.close()
+    return p
+
+
+class inc(Event):
+    pass
 
 
 class PeerApp(Component):
-    channel = 'node'
+    def init(self):
+        self.calls = []
 
-    def __init__(self):
-        super().__init__()
-        self.executed = []
-
-    def hello(self, *args, **kwargs):
-        self.executed.append(kwargs)
-        return sorted(kwargs)
+    def inc(self, n):
+        self.calls.append(n)
+        return n + 1
 
 
-class Caller(Component):
-    channel = 'node'
-
-    def __init__(self):
-        super().__init__()
+class App(Component):
+    def init(self):
         self.results = {}
 
-    @handler('go')
-    def _on_go(self, tag, kwargs):
-        value = yield self.call(remote(hello('text', **kwargs), 'peer'))
-        self.results[tag] = value.value
+    def drive(self, n, chan):
+        x = yield self.call(inc(n), chan)
+        self.results[chan] = x.value
 
 
-def spin(managers, n, cond=None):
-    for _ in range(n):
-        for m in managers:
-            m._running = True
-            m.tick(0)
+def pump(ms, cond=None, t=5.0):
+    end = time.time() + t
+    while time.time() < end:
+        for m in ms:
+            m.tick(0.01)
         if cond is not None and cond():
             return True
-        time.sleep(0.005)
     return False
 
 
-def main():
-    bad = 0
+port = freeport()
+peer = PeerApp()
+pnode = Node(port=port, server_ip='127.0.0.1').register(peer)
+app = App()
+node = Node().register(app)
+node.add('peer', '127.0.0.1', port, reconnect_delay=0, auto_remote_event={'inc': ['a', 'b']})
+ms = [peer, app]
+for m in ms:
+    m._running = True
+assert pump(ms, lambda: len(pnode.server.get_socks()) == 1), 'could not connect over loopback'
+pump(ms, t=0.2)
 
-    print('1) serialisation round trip  load_event(dump_event(hello("text", **kwargs)))')
-    for kwargs in ({'klass': 'warning'}, {'cls': 'warning'}, {'_name': 'bob'}):
-        e = hello('text', **kwargs)
-        e.channels = ('node',)
-        try:
-            e2, _ = load_event(dump_event(e, 0))
-            print('   kwargs=%r -> name=%r args=%r kwargs=%r' % (kwargs, e2.name, e2.args, e2.kwargs))
-            if e2.kwargs != kwargs:
-                bad += 1
-        except Exception as exc:
-            bad += 1
-            print('   kwargs=%r -> %s: %s' % (kwargs, type(exc).__name__, exc))
+app.fire(Event.create('drive', 10, 'b'))
+pump(ms, lambda: 'b' in app.results, t=3)
+app.fire(Event.create('drive', 20, 'a'))
+pump(ms, lambda: 'a' in app.results, t=3)
+pump(ms, t=0.3)
 
-    print('2) over a real connection')
-    peer = Manager()
-    peer_node = Node(port=0, server_ip='127.0.0.1').register(peer)
-    app = PeerApp().register(peer)
-    spin([peer], 5)
-    local = Manager()
-    node = Node().register(local)
-    caller = Caller().register(local)
-    node.add('peer', '127.0.0.1', peer_node.server.port)
-    spin([peer, local], 40)
+print("auto_remote_event={'inc': ['a', 'b']}")
+print("inc(10) fired on channel 'b': result at the waiting handler: %r" % (app.results.get('b', '<handler never resumed>'),))
+print("inc(20) fired on channel 'a': result at the waiting handler: %r" % (app.results.get('a', '<handler never resumed>'),))
+print('executed on the peer:', peer.calls)
 
-    cases = [('control', {'klass': 'warning'}), ('cls', {'cls': 'warning'}), ('_name', {'_name': 'bob'})]
-    for tag, kwargs in cases:
-        local.fire(Event.create('go', tag, kwargs), 'node')
-        answered = spin([peer, local], 300, lambda: tag in caller.results)
-        print('   hello("text", **%r): executed on peer: %s, result came back: %s %r'
-              % (kwargs, kwargs in app.executed, answered, caller.results.get(tag)))
-        if kwargs not in app.executed or not answered:
-            bad += 1
-
-    if bad:
-        print('VIOLATION: events with JSON-representable keyword arguments `cls` / `_name` are neither '
-              'executed on the peer nor answered (%d failed checks)' % bad)
-        return 1
-    print('ok: all keyword arguments survive')
-    return 0
-
-
-if __name__ == '__main__':
-    sys.exit(main())
+bad = False
+if peer.calls.count(20) != 1:
+    print("VIOLATION: the event bound to channel 'a' was executed %d times on the peer (expected once)" % peer.calls.count(20))
+    bad = True
+if peer.calls.count(10) != 1:
+    print("VIOLATION: the event bound to channel 'b' was executed %d times on the peer (expected once)" % peer.calls.count(10))
+    bad = True
+if app.results.get('b') != 11 or app.results.get('a') != 21:
+    print("VIOLATION: the remote result did not come back to the waiting handler (expected {'b': 11, 'a': 21}, got %r)" % (app.results,))
+    bad = True
+if bad:
+    sys.exit(1)
+print('ok: both bound channels forward exactly once')
+sys.exit(0)
